@@ -94,8 +94,7 @@ class Creators:
       if isinstance(gfa_line, str):
         gfa_line = gfapy.Line(gfa_line, vlevel=self._vlevel,
             dialect=self._dialect)
-      if self._vlevel > 0 and gfa_line.VN and \
-          gfa_line.VN not in ["1.0", "2.0"]:
+      if gfa_line.VN and gfa_line.VN not in ["1.0", "2.0"]:
         # refuse the line before anything of it is kept
         raise gfapy.VersionError(
           "GFA specification version {} not supported".format(gfa_line.VN))
